@@ -649,11 +649,21 @@ def cmaes_stage(c, n_cases):
     def fresh(i, problem=problem):
       return cmaes.CMAESDesigner(problem)
     pop = fresh(0)._cma_es_jax.hyper_parameters.pop_size  # pylint: disable=protected-access
-    aligned = (ci % 2 == 0)
-    if aligned:
+    aligned = (ci % 3 != 2)
+    if ci % 3 == 0:
       # whole populations between suggests: the buffer is empty at every restart
       nst = c.rng.randrange(3, 6)
       steps = [{'count': pop, 'complete': 0}] + [{'count': pop, 'complete': pop} for _ in range(nst)]
+    elif ci % 3 == 1:
+      # a population handed out in SEVERAL batches (state that moves without a generation change: the PRNG key),
+      # completed as a whole: the buffer is still empty at every restart
+      steps = []
+      for g in range(c.rng.randrange(3, 5)):
+        a1 = c.rng.randrange(1, pop)
+        a2 = c.rng.randrange(1, pop - a1 + 1)
+        parts = [x for x in (a1, a2, pop - a1 - a2) if x > 0]
+        for k, cnt in enumerate(parts):
+          steps.append({'count': cnt, 'complete': pop if (g > 0 and k == 0) else 0})
     else:
       steps = gen_steps(c.rng, c.rng.randrange(5, 10), max_count=4)
     restarts = gen_restarts(c.rng, len(steps))
